@@ -63,6 +63,7 @@ func chessReplay(args []string) error {
 	outF := fs.String("out", "", "result json")
 	perftMax := fs.Int("perft", 0, "compare engine perft with the tree's level counts up to this depth (tree artefacts only)")
 	seed := fs.Int64("seed", 1, "seed")
+	thin := fs.Int("thin", 1, "use only every n-th node among those more than three plies from their root (long walks; expensive properties)")
 	if err := fs.Parse(args); err != nil {
 		return err
 	}
@@ -80,7 +81,14 @@ func chessReplay(args []string) error {
 			c.props[p] = true
 		}
 	}
+	nth := 0
 	err = readObs(strings.Split(*obsF, ","), func(o *Obs) error {
+		if *thin > 1 && len(o.Path) > 3 {
+			nth++
+			if nth%*thin != 0 {
+				return nil
+			}
+		}
 		c.node(o)
 		return nil
 	})
